@@ -227,6 +227,55 @@ func (s *Sim) Step(r *Replica, moreToApply, busySnap bool, crash CrashPoint, cut
 		s.crashNow(r, crash, cut)
 		return true
 	}
+	// persistRaftState: SaveSnap (snap file, WAL marker, sync), then Save(hardstate, entries).
+	// Returns true if the replica died inside it.
+	persist := func() bool {
+		if hasSnap {
+			from := len(r.Disk.Recs)
+			r.Disk.appendSnap(cloneSnap(rd.Snapshot))
+			r.Disk.sync()
+			s.notifyPersisted(r, from, true)
+			s.St.SnapshotsInstalled++
+		}
+		if crash == CrashSnapSaved {
+			s.crashNow(r, crash, cut)
+			return true
+		}
+		{
+			from := len(r.Disk.Recs)
+			prev := r.Disk.lastState()
+			r.Disk.appendEntries(rd.Entries)
+			r.Disk.appendState(rd.HardState)
+			if crash == CrashTornPersist {
+				s.notifyPersisted(r, from, false)
+				s.crashNow(r, crash, cut)
+				return true
+			}
+			// wal.Save: nothing to write -> return; else sync iff raft.MustSync(st, w.state, len(ents))
+			wrote := len(r.Disk.Recs) > from
+			mustSync := wrote && raft.MustSync(rd.HardState, prev, len(rd.Entries))
+			if mustSync || hasSnap { // processReady syncs explicitly after an incoming snapshot
+				r.Disk.sync()
+			}
+			if wrote {
+				s.notifyPersisted(r, from, mustSync || hasSnap)
+			}
+		}
+		return false
+	}
+	// processReady persists first when the Ready hands out, as committed, entries it still has to
+	// write (node/raft.go committedEntriesNotPersisted: only possible with a quorum of one)
+	persisted := false
+	if n := len(rd.CommittedEntries); n > 0 && len(rd.Entries) > 0 {
+		lc, fu := rd.CommittedEntries[n-1], rd.Entries[0]
+		if lc.Term > fu.Term || (lc.Term == fu.Term && lc.Index >= fu.Index) {
+			s.St.PersistedBeforePublish++
+			if persist() {
+				return true
+			}
+			persisted = true
+		}
+	}
 	// publishEntries: the apply side now owns the committed entries / the snapshot
 	if len(rd.CommittedEntries) > 0 || hasSnap {
 		s.publish(r, &rd)
@@ -249,36 +298,9 @@ func (s *Sim) Step(r *Replica, moreToApply, busySnap bool, crash CrashPoint, cut
 		s.crashNow(r, crash, cut)
 		return true
 	}
-	// persistRaftState: SaveSnap (snap file, WAL marker, sync), then Save(hardstate, entries)
-	if hasSnap {
-		from := len(r.Disk.Recs)
-		r.Disk.appendSnap(cloneSnap(rd.Snapshot))
-		r.Disk.sync()
-		s.notifyPersisted(r, from, true)
-		s.St.SnapshotsInstalled++
-	}
-	if crash == CrashSnapSaved {
-		s.crashNow(r, crash, cut)
-		return true
-	}
-	{
-		from := len(r.Disk.Recs)
-		prev := r.Disk.lastState()
-		r.Disk.appendEntries(rd.Entries)
-		r.Disk.appendState(rd.HardState)
-		if crash == CrashTornPersist {
-			s.notifyPersisted(r, from, false)
-			s.crashNow(r, crash, cut)
+	if !persisted {
+		if persist() {
 			return true
-		}
-		// wal.Save: nothing to write -> return; else sync iff raft.MustSync(st, w.state, len(ents))
-		wrote := len(r.Disk.Recs) > from
-		mustSync := wrote && raft.MustSync(rd.HardState, prev, len(rd.Entries))
-		if mustSync || hasSnap { // processReady syncs explicitly after an incoming snapshot
-			r.Disk.sync()
-		}
-		if wrote {
-			s.notifyPersisted(r, from, mustSync || hasSnap)
 		}
 	}
 	if crash == CrashWalSaved {
